@@ -283,12 +283,18 @@ def run(rep):
                     if mode == 'disp':
                         t2.displacements
                     f = root / f'rt-{kind}-{a[0]}{a[1]}-{mode}.cache'
+                    import copy
+                    snap = copy.deepcopy(t2)                   # what is being saved, taken BEFORE saving
                     t2.to_cache(f)
                     back = Trajectory.from_cache(f)
-                    why = same(back, t2)
+                    why = same(back, snap)
                     rep.evaluations += 1
                     if why:
                         rep.violation({'kind': 'roundtrip', 'clause': 'to_cache/from_cache:' + why, 'loader': kind, 'args': a, 'mode': mode})
+                    why = same(t2, snap)
+                    rep.evaluations += 1
+                    if why:
+                        rep.violation({'kind': 'roundtrip', 'clause': 'to_cache-changed-the-saved-object:' + why, 'loader': kind, 'args': a, 'mode': mode})
     finally:
         shutil.rmtree(root, ignore_errors=True)
     rep.exhaustive = True
